@@ -51,30 +51,38 @@ Cat == Catalogue(FMAXT) \o <<
 
 Pairs == {<<i, j>> \in (1..Len(Cat)) \X (1..Len(Cat)) : i <= j /\ (i * Len(Cat) + j) % Stride = 0}
 Bufs(i, j) == BufPairs \cup (IF Cat[i].type \in AreaKinds /\ Cat[j].type \in AreaKinds THEN {<<0, 0>>} ELSE {})
-Cases == {[far |-> FALSE, i |-> p[1], j |-> p[2], tb |-> b[1], fb |-> b[2]] : p \in Pairs, b \in BufPairs \cup {<<0, 0>>}}
+Cases == {[far |-> FALSE, iso |-> FALSE, i |-> p[1], j |-> p[2], tb |-> b[1], fb |-> b[2]] : p \in Pairs, b \in BufPairs \cup {<<0, 0>>}}
 \* "far" sessions: the same catalogue in ticks of 2^-10 s, FarPad ticks after an origin of 2^E s (FarBases, 0 = none):
 \* short events far along the time axis.  Only pairs whose result is a closed form (time-only or two boxes) and whose
 \* extents are exact, so that every clause stays exact; the common shift is the change of origin.
 FarPad == 16
 FarOk(i) == ClosedExtent(Cat[i])
-FarCases == {[far |-> TRUE, i |-> p[1], j |-> p[2], tb |-> b[1], fb |-> b[2]] :
+FarCases == {[far |-> TRUE, iso |-> FALSE, i |-> p[1], j |-> p[2], tb |-> b[1], fb |-> b[2]] :
                 p \in {q \in Pairs : FarOk(q[1]) /\ FarOk(q[2]) /\
                                       (TimeOnlyPair(Cat[q[1]].type, Cat[q[2]].type) \/ BoxPair(Cat[q[1]].type, Cat[q[2]].type))},
                 b \in BufPairs}
 \* bracketed lines against time-only geometries, at the fine unit (1 ms ticks: the buffer is a few ms, so anything that
 \* displaces the buffered shape by a fraction of a ms shows) and at origin 0 only (oblique caps are not exact far away)
-BentCases == {[far |-> TRUE, i |-> p[1], j |-> p[2], tb |-> b[1], fb |-> b[2]] :
+BentCases == {[far |-> TRUE, iso |-> FALSE, i |-> p[1], j |-> p[2], tb |-> b[1], fb |-> b[2]] :
                  p \in {q \in Pairs : /\ TimeOnlyPair(Cat[q[1]].type, Cat[q[2]].type)
                                        /\ \E b \in BufPairs : Bracketed(Cat[q[1]], b[1], b[2]) \/ Bracketed(Cat[q[2]], b[1], b[2])},
                  b \in BufPairs}
+\* "iso" sessions: their own small catalogue, one numeric unit on both axes, equal buffers; time-only against grown kinds
+IsoCat == << G("TimeStamp", 2), G("TimeStamp", 5), G("TimeInterval", <<1, 2>>), G("TimeInterval", <<4, 6>>), G("TimeInterval", <<0, 3>>),
+             G("Point", <<1, 2>>), G("Point", <<3, 1>>), G("Point", <<7, 2>>), G("MultiPoint", <<<<0, 0>>, <<2, 4>>>>),
+             G("LineString", <<<<3, 2>>, <<6, 2>>>>), G("MultiLineString", <<<<<<1, 3>>, <<2, 3>>>>, <<<<4, 2>>, <<6, 2>>>>>>) >>
+IsoCases == {[far |-> FALSE, iso |-> TRUE, i |-> p[1], j |-> p[2], tb |-> b, fb |-> b] :
+                p \in {q \in (1..Len(IsoCat)) \X (1..Len(IsoCat)) : q[1] <= q[2] /\ TimeOnlyPair(IsoCat[q[1]].type, IsoCat[q[2]].type)},
+                b \in {1, 2}}
 IsBent(k) == k.far /\ (~ClosedExtent(Cat[k.i]) \/ ~ClosedExtent(Cat[k.j]))
-GA(k) == IF k.far THEN Shift(Cat[k.i], FarPad) ELSE Cat[k.i]
-GB(k) == IF k.far THEN Shift(Cat[k.j], FarPad) ELSE Cat[k.j]
+GA(k) == IF k.iso THEN IsoCat[k.i] ELSE IF k.far THEN Shift(Cat[k.i], FarPad) ELSE Cat[k.i]
+GB(k) == IF k.iso THEN IsoCat[k.j] ELSE IF k.far THEN Shift(Cat[k.j], FarPad) ELSE Cat[k.j]
 \* where the two geometry objects of a session come from (0 constructed, 1 model_copy(update = coordinates) of a used
 \* geometry elsewhere, 2 the same by attribute assignment, 3 deep copy of a used geometry), spread over the sessions.
 \* The affinity is a function of the geometries as values: no clause depends on it.
 ProvOf(k) == <<(k.i + k.tb) % 4, (k.j + 2 * k.fb + 1) % 4>>
-Concrete(k) == IF k.far
+Concrete(k) == IF k.iso THEN [kind |-> "iso", g1 |-> GA(k), g2 |-> GB(k), tb |-> k.tb, fb |-> k.fb, ds |-> Offsets, prov |-> ProvOf(k)]
+               ELSE IF k.far
                THEN [kind |-> "far", g1 |-> GA(k), g2 |-> GB(k), tb |-> k.tb, fb |-> k.fb,
                      ds |-> IF IsBent(k) THEN <<0>> ELSE [x \in DOMAIN FarBases |-> 0],
                      bases |-> IF IsBent(k) THEN <<0>> ELSE FarBases, prov |-> ProvOf(k)]
@@ -92,7 +100,7 @@ ImplTimeTypes == {"TimeStamp", "TimeInterval"}
 Guard(iu) == IF iu[2] = 0 THEN <<0, 1>> ELSE iu
 Opaque == <<-1, 1>>            \* an area ratio computed by shapely: not predicted by the model
 
-Init == /\ c \in {k \in Cases : <<k.tb, k.fb>> \in Bufs(k.i, k.j)} \cup FarCases \cup BentCases
+Init == /\ c \in {k \in Cases : <<k.tb, k.fb>> \in Bufs(k.i, k.j)} \cup FarCases \cup BentCases \cup IsoCases
         /\ pc = "prep1" /\ p1 = <<>> /\ p2 = <<>> /\ res = <<>>
 Prep1 == pc = "prep1" /\ p1' = Prepare(GA(c), c.tb) /\ pc' = "prep2" /\ UNCHANGED <<c, p2, res>>
 Prep2 == pc = "prep2" /\ p2' = Prepare(GB(c), c.tb) /\ pc' = "branch" /\ UNCHANGED <<c, p1, res>>
@@ -181,5 +189,7 @@ ASSUME RingPresent == \E i, j, k \in 1..Len(Cat) :
     /\ LET r == Bounds(Cat[i], FMAXT)  b == Cat[j].coordinates  p == Cat[k].coordinates
        IN  r[1] < b[1] /\ b[3] < r[3] /\ r[2] < b[2] /\ b[4] < r[4] /\ r[1] < p[1] /\ p[1] < r[3] /\ r[2] < p[2] /\ p[2] < r[4]
 LawSeparateSym == Separate(g1, g2, c.tb, c.fb) = Separate(g2, g1, c.tb, c.fb)
+\* the iso catalogue has two kinds with one coordinate list
+ASSUME IsoTwinsPresent == \E i, j \in 1..Len(IsoCat) : IsoCat[i].type = "TimeInterval" /\ IsoCat[j].type = "Point" /\ IsoCat[i].coordinates = IsoCat[j].coordinates
 ExtentsInRange == \A r \in Readings, d \in Ds : TIoU(g1, g2, d, r)[2] <= 32767
 =============================================================================
